@@ -157,8 +157,57 @@ def rule_inverse_form(repo: Repo, rep: Report) -> int:
     bc = [c for c in ast.walk(pw.node) if isinstance(c, ast.Call) and call_name(c) == "apply_blockwise"]
     cl = pw.nested("projection_fn")
     ok = len(bc) == 1 and unparse(bc[0].args[1]) in ("self._length", "self.code_length") and cl is not None and [unparse(r.value) for r in returns_of(cl.node)] == ["reshaped_x[..., self.information_set]"]
-    rep.expect(ok, "INVERSE-FORM", pw, "project_word: per block of n symbols take block[..., information_set]", "projection onto the information positions, blockwise", "project_word is not the blockwise selection of the information positions")
+    if ok:
+        rep.ok("INVERSE-FORM", pw, "project_word: per block of n symbols take block[..., information_set]", "projection onto the information positions, blockwise")
+    else:
+        st_, d_ = project_word_evaluated(repo, pw)
+        rep.add("INVERSE-FORM", pw, "project_word evaluated on multi-block inputs", st_, d_ if st_ != UNDECIDED else f"project_word is not the listed blockwise selection and {d_}", node=pw.node)
     return 12
+
+
+def project_word_evaluated(repo: Repo, pw: FuncInfo):
+    """Run project_word (apply_blockwise inlined, own arithmetic) on inputs with 1, 2 and 3 blocks per row, 1-D / 2-D /
+    3-D, for two information sets: block j of every row must contribute x[j*n + information_set]; a length that is not a
+    multiple of n must be rejected."""
+    from ..constfold import Unfoldable
+    from ..frag import FragRaise, FragReturn, run_fragment
+
+    funcs = {"apply_blockwise": repo.func(UTL, "apply_blockwise").node}
+    for n_, info in ((5, [1, 3]), (7, [6, 0, 2])):
+        k_ = len(info)
+        for blocks in (1, 2, 3):
+            for lead in ((), (2,), (2, 2)):
+                def mk(shape, base=[0]):
+                    if len(shape) == 1:
+                        base[0] += 100
+                        return [base[0] + t for t in range(shape[0])]
+                    return [mk(shape[1:]) for _ in range(shape[0])]
+                x = mk(list(lead) + [blocks * n_])
+                try:
+                    run_fragment(pw.body, {"x": x}, {"self._length": n_, "self._dimension": k_, "self.information_set": list(info), "self.code_length": n_, "self.code_dimension": k_}, funcs=funcs, max_steps=40000)
+                    return UNDECIDED, "no value returned"
+                except FragReturn as r:
+                    got = r.value
+                except FragRaise:
+                    return VIOLATION, f"a valid input of shape {tuple(lead) + (blocks * n_,)} is rejected"
+                except (Unfoldable, TypeError, IndexError) as exc:
+                    return UNDECIDED, f"not evaluable ({exc})"
+
+                def rows(z):
+                    return [z] if z and not isinstance(z[0], list) else [r_ for t in z for r_ in rows(t)]
+                want_rows = [[row[j * n_ + p_] for j in range(blocks) for p_ in info] for row in rows(x)]
+                if not isinstance(got, list) or rows(got) != want_rows:
+                    return VIOLATION, f"for n = {n_}, information set {info} and {blocks} block(s) per row the projection returns {rows(got)[0] if isinstance(got, list) and got else got} where the information symbols of the blocks are {want_rows[0]} (symbols are read from the wrong positions from the second block on)"
+    try:
+        run_fragment(pw.body, {"x": [1, 2, 3, 4, 5, 6]}, {"self._length": 5, "self._dimension": 2, "self.information_set": [1, 3], "self.code_length": 5, "self.code_dimension": 2}, funcs=funcs, max_steps=20000)
+        return VIOLATION, "a length that is not a multiple of n is not rejected"
+    except FragRaise:
+        pass
+    except FragReturn:
+        return VIOLATION, "a length that is not a multiple of n is answered instead of rejected"
+    except (Unfoldable, TypeError, IndexError) as exc:
+        return UNDECIDED, f"not evaluable ({exc})"
+    return OK, "blockwise selection of the information positions for 1..3 blocks per row, 1-D/2-D/3-D inputs, two information sets; invalid length rejected"
 
 
 def rule_blockwise(repo: Repo, rep: Report) -> int:
